@@ -22,7 +22,7 @@ def main():
     props = {json.loads(l)["id"]: json.loads(l) for l in open(os.path.join(V, "properties.jsonl"))}
     results = []
     only = sys.argv[1:]
-    for d in sorted(glob.glob("/tmp/seed2/C??/seed_out")):
+    for d in sorted(glob.glob(os.environ.get("SEED_DIR", "/tmp/seed") + "/C??/seed_out")):
         pid = d.split("/")[3]
         if only and pid not in only:
             continue
